@@ -103,6 +103,8 @@ def call_value(it, f, args, kwargs, fr, node, dotted):
         return call_vfunc(it, f, args, kwargs, node)
     if isinstance(f, VSpecFn):
         return f.fn(it, *args, **kwargs)
+    if isinstance(f, VObj) and 'call!' in f.fields:
+        return f.fields['call!'](it, *args, **kwargs)
     if isinstance(f, VBound):
         if f.func is None:
             return call_method_builtin(it, f.recv, f.name, args, kwargs, fr, node)
@@ -612,6 +614,11 @@ def b_int(it, args, kwargs, fr, node):
         r = z3.Function(f'int{args[1]}_of', I, I)(v.ident)
         it.ctx.assume(r >= 0) if False else None
         return r
+    if isinstance(v, VObj) and v.fields.get('opaque!') and it.sweep_mode():
+        # int(x) of an unconstrained value: any integer; when the value comes from text (a piece of a token), or ValueError
+        if v.fields.get('text!') and it.ctx.branch(it.ctx.fresh(f'int({v.name}) refuses', z3.BoolSort())):
+            raise exc(ValueError, 'invalid literal for int()')
+        return it.ctx.fresh(f'int({v.name})')
     raise Unsupported(f'int() of {type(v).__name__}')
 
 
@@ -1032,6 +1039,8 @@ def call_method_builtin(it, recv, name, args, kwargs, fr, node):
         if name == 'join' and isinstance(args[0], VObj) and args[0].fields.get('opaque!'):
             # join of an unconstrained list (one the loop cut havocked): some bytes
             return ctx.fresh_bytes('joined', 'bytes')
+        if name == 'join' and it.sweep_mode() and isinstance(args[0], (VList, VTuple)) and any(isinstance(x, VObj) and x.fields.get('opaque!') for x in args[0].items):
+            return ctx.fresh_bytes('joined', 'bytes')
         if name == 'join':
             out = VBytes([])
             items = it.iter_static(args[0])
@@ -1055,6 +1064,9 @@ def call_method_builtin(it, recv, name, args, kwargs, fr, node):
             recv.items.append(args[0])
             return None
         if name == 'extend':
+            if it.sweep_mode() and isinstance(args[0], VObj) and args[0].fields.get('opaque!'):
+                recv.items.append(args[0])  # some unconstrained elements: kept as one unconstrained marker
+                return None
             recv.items.extend(it.iter_static(args[0]))
             return None
         if name == 'pop':
@@ -1132,6 +1144,13 @@ def call_method_builtin(it, recv, name, args, kwargs, fr, node):
             if name in ('format', 'join'):
                 return VStr(ctx.fresh('str'), name)
             return VStr(z3.Function('str_' + key, I, I)(ident), name)
+    if isinstance(recv, (VStr, str)) and it.sweep_mode():
+        # a string method without a model (split, partition, count, ...): an unconstrained value
+        from .interp import opaque_like
+
+        r = opaque_like(ctx, f'str.{name}()')
+        r.fields['text!'] = True
+        return r
     raise Unsupported(f'method {name} on {type(recv).__name__} at line {node.lineno} of {fr.qualname}')
 
 
